@@ -78,5 +78,35 @@ RULE = RULE + ("; locale stream: locale of the child process (ASCII 60 % / UTF-8
                ">= 1 recorded event")
 
 
+from props._em import EMStream, em_table      # termination also rests on the event manager: `fire` must never block
+
+
+def tables(ctx):
+    return [em_table()]
+
+
+class EM(EMStream):
+    """the real AsyncEventManager fed more events after a handler failure than any bound its queue has (C11.em, judged on
+    termination only): a blocked `fire` is a worker (or the main thread) that never reports its task back"""
+    name = "C01.em"
+    hang_signature = "C01/run-does-not-terminate/%(where)s-blocked"
+    only_termination = True
+    quick_cases = 40
+    quick_seconds = 8
+
+
+LEAN_MODULES = LEAN_MODULES + ["LccModel.Props.C01Events"]
+PROPS_FILES = PROPS_FILES + ["LccModel/Props/C01Events.lean"]
+NAMESPACES = dict(NAMESPACES, **{"LccModel/Props/C01Events.lean": "LccModel.C01Events"})
+TRUSTED_BASE = TRUSTED_BASE + ["event manager: Model/EventManager.lean (shared with C11), tied by the em stream on the real AsyncEventManager "
+                               "and by the extracted bound of the real queue (table emQueueBound, obligation em_queue_is_unbounded in "
+                               "Generated/C01TablesCheck.lean)"]
+RULE = RULE + ("; em stream: n ∈ 0..3000 events fired by 1..3 producers into the real AsyncEventManager, 0..2 failing handlers, 40 % of the "
+               "failing cases ask for bound+k events after the failure whatever bound the real queue has (non-trivial = ≥ 2 events)")
+EXPLANATION = EXPLANATION + (" Termination also needs that firing an event never blocks: Props/C01Events proves it for the unbounded queue "
+                             "(every interleaving, every failing handler) and proves that EVERY finite bound blocks a run that fires more than "
+                             "the bound after a handler failure; the bound of the real queue is extracted on every run.")
+
+
 def streams(ctx):
-    return [Sched(), Run(), RunPT(), Decl(), Locale()]
+    return [Sched(), Run(), RunPT(), Decl(), Locale(), EM()]
